@@ -121,3 +121,9 @@ Properties/C19.vos Properties/C19.vok Properties/C19.required_vos: Properties/C1
 Properties/C18.vo Properties/C18.glob Properties/C18.v.beautified Properties/C18.required_vo: Properties/C18.v Model/Types.vo Model/Book.vo Model/Obs.vo Model/Codec.vo Model/PyView.vo Proofs/Grid.vo Generated/Layout.vo
 Properties/C18.vio: Properties/C18.v Model/Types.vio Model/Book.vio Model/Obs.vio Model/Codec.vio Model/PyView.vio Proofs/Grid.vio Generated/Layout.vio
 Properties/C18.vos Properties/C18.vok Properties/C18.required_vos: Properties/C18.v Model/Types.vos Model/Book.vos Model/Obs.vos Model/Codec.vos Model/PyView.vos Proofs/Grid.vos Generated/Layout.vos
+Proofs/MapLemmas.vo Proofs/MapLemmas.glob Proofs/MapLemmas.v.beautified Proofs/MapLemmas.required_vo: Proofs/MapLemmas.v Model/Types.vo Model/Map.vo Proofs/Basic.vo
+Proofs/MapLemmas.vio: Proofs/MapLemmas.v Model/Types.vio Model/Map.vio Proofs/Basic.vio
+Proofs/MapLemmas.vos Proofs/MapLemmas.vok Proofs/MapLemmas.required_vos: Proofs/MapLemmas.v Model/Types.vos Model/Map.vos Proofs/Basic.vos
+Proofs/Refine.vo Proofs/Refine.glob Proofs/Refine.v.beautified Proofs/Refine.required_vo: Proofs/Refine.v Model/Types.vo Model/Map.vo Model/Side.vo Model/Book.vo Model/Obs.vo Spec/RefBook.vo Proofs/Basic.vo Proofs/MapLemmas.vo
+Proofs/Refine.vio: Proofs/Refine.v Model/Types.vio Model/Map.vio Model/Side.vio Model/Book.vio Model/Obs.vio Spec/RefBook.vio Proofs/Basic.vio Proofs/MapLemmas.vio
+Proofs/Refine.vos Proofs/Refine.vok Proofs/Refine.required_vos: Proofs/Refine.v Model/Types.vos Model/Map.vos Model/Side.vos Model/Book.vos Model/Obs.vos Spec/RefBook.vos Proofs/Basic.vos Proofs/MapLemmas.vos
